@@ -89,6 +89,61 @@ func ruleRegAlways(c *Ctx) {
 		pos := P.pos(rc.Pos())
 		var bad []string
 		n := 0
+		// uncond: the instruction is reached on every call of its function — no branch other than loop tests
+		// (a loop over a table of registrations, the exit of an earlier loop) decides it
+		uncond := func(fn *ssa.Function, in ssa.Instruction) string {
+			anyHead := map[*ssa.BasicBlock]bool{}
+			inLoop := false
+			for _, l := range loopsOf(fn) {
+				anyHead[l.Header] = true
+				if l.Blocks[in.Block()] {
+					inLoop = true
+				}
+			}
+			for _, f := range factsAt(in.Block()) {
+				if f.If != nil && !anyHead[f.If.Block()] {
+					return fmt.Sprintf("happens only under a condition (tested at %s)", P.pos(firstPos(f.If.Block())))
+				}
+			}
+			if !inLoop {
+				for _, r := range returnsOf(fn) {
+					if !dominatesInstr(in, r) {
+						return "does not happen on every path through " + fn.Name()
+					}
+				}
+			}
+			return ""
+		}
+		// always: fn runs, unconditionally, every time RegisterCodecs is called: it is RegisterCodecs, or a named
+		// function all of whose call sites are unconditional sites in such a function
+		var always func(fn *ssa.Function, d int) string
+		always = func(fn *ssa.Function, d int) string {
+			if fn == rc {
+				return ""
+			}
+			if d > 3 || fn.Parent() != nil || fn.Synthetic != "" {
+				return fmt.Sprintf("is made in %s, which is not RegisterCodecs or a plain function RegisterCodecs always calls", fnKey(fn))
+			}
+			sites := 0
+			for _, g := range P.ModuleFuncs() {
+				for _, cs := range callsIn(g) {
+					if cs.Static != fn {
+						continue
+					}
+					sites++
+					if w := uncond(g, cs.Instr); w != "" {
+						return fmt.Sprintf("is made in %s, whose call at %s %s", fnKey(fn), P.pos(cs.Instr.Pos()), w)
+					}
+					if w := always(g, d+1); w != "" {
+						return w
+					}
+				}
+			}
+			if sites == 0 {
+				return fmt.Sprintf("is made in %s, which nothing calls directly", fnKey(fn))
+			}
+			return ""
+		}
 		for _, fn := range P.ModuleFuncs() {
 			top := fn
 			for top.Parent() != nil {
@@ -102,16 +157,12 @@ func ruleRegAlways(c *Ctx) {
 					continue
 				}
 				n++
-				switch {
-				case fn != rc:
-					bad = append(bad, fmt.Sprintf("%s is called at %s, in %s, not in RegisterCodecs itself", cs.Static.Name(), P.pos(cs.Instr.Pos()), fnKey(fn)))
-				default:
-					for _, r := range returnsOf(rc) {
-						if !dominatesInstr(cs.Instr, r) {
-							bad = append(bad, fmt.Sprintf("%s at %s does not happen on every path through RegisterCodecs", cs.Static.Name(), P.pos(cs.Instr.Pos())))
-							break
-						}
-					}
+				if w := uncond(fn, cs.Instr); w != "" {
+					bad = append(bad, fmt.Sprintf("%s at %s %s", cs.Static.Name(), P.pos(cs.Instr.Pos()), w))
+					continue
+				}
+				if w := always(fn, 0); w != "" {
+					bad = append(bad, fmt.Sprintf("%s at %s %s", cs.Static.Name(), P.pos(cs.Instr.Pos()), w))
 				}
 			}
 		}
